@@ -683,7 +683,7 @@ pub fn dec_seq<T: Model>(r: &mut Rd, max: usize) -> Option<Vec<T>> {
     }
 }
 
-pub const DEC_MAX: usize = 4;
+pub const DEC_MAX: usize = 8;
 
 fn same_iter<'a, T: Model + 'a>(
     mut a: impl Iterator<Item = &'a T>,
